@@ -1,11 +1,9 @@
 (* GenWF2Props.v — consequences of the structural invariant for whole images:
    the forms quoted by Properties/C04, C05, C06. *)
 From Coq Require Import ZArith List String Bool Lia.
-From Gigue Require Import Types Bits Isa Enc GenTables Builder Samplers Generator GenLemmas Machine ImageSem GenWF GenWFProps GenWF2 SliceLemmas GenWF3.
+From Gigue Require Import Types Bits Isa Enc GenTables Builder Samplers Generator GenLemmas Machine ImageSem GenWF GenWFProps GenWF2 SliceLemmas GenWF3 GenWF4.
 Import ListNotations.
 Open Scope Z_scope.
-
-Definition bodies_nonneg (img : image) : Prop := Forall (fun m => 0 <= m_body m) (im_methods img).
 
 Definition method_words (ms : list method) (id : nat) : list Z :=
   match nth_error ms id with Some m => map generate (m_instrs m) | None => [] end.
@@ -59,30 +57,38 @@ Proof.
       exists b'. split; [econstructor; try eassumption; reflexivity|auto].
 Qed.
 
-Lemma len_total c m : mok2 c m -> 0 <= m_body m -> zlen (m_instrs m) = m_total m.
-Proof. intros [_ L] Hb. rewrite L. unfold m_total. lia. Qed.
+Lemma len_total c m : mok2 c m -> zlen (m_instrs m) = m_total m.
+Proof. intros [_ [L Hb]]. rewrite L. unfold m_total. lia. Qed.
 
 Lemma Forall_len_total c ms :
-  Forall (mok2 c) ms -> Forall (fun m => 0 <= m_body m) ms -> Forall (fun m => zlen (m_instrs m) = m_total m) ms.
+  Forall (mok2 c) ms -> Forall (fun m => zlen (m_instrs m) = m_total m) ms.
+Proof. intros H. eapply Forall_impl; [|exact H]. intros m. apply len_total. Qed.
+
+(* accepted configurations: the facts the structural theorems use *)
+Lemma cfg_ok_sizes c : cfg_ok c = true -> 1 <= c_nb_methods c /\ 0 <= method_size c.
 Proof.
-  intros H1 H2. apply Forall_forall. intros m Hm. rewrite Forall_forall in H1, H2.
-  eapply len_total; [apply H1|apply H2]; exact Hm.
+  intros Hc. unfold cfg_ok in Hc. repeat (apply andb_prop in Hc; destruct Hc as [Hc ?]).
+  unfold cfg_sizes in Hc. repeat (apply andb_prop in Hc; destruct Hc as [Hc ?]).
+  apply Z.leb_le in Hc. unfold method_size.
+  match goal with Hq : (1 <=? c_jit_size c / c_nb_methods c) = true |- _ => apply Z.leb_le in Hq end. lia.
+Qed.
+
+Lemma successful_wf c script img : successful c script img -> image_wf c img /\ Sites c (im_methods img).
+Proof.
+  intros [Hc Hr]. destruct (cfg_ok_facts c Hc) as [F R]. destruct (cfg_ok_sizes c Hc) as [Hnb Hms].
+  split; [exact (run_gen_wf c script img [] F Hms Hnb Hr)|exact (run_gen_sites c script img [] F Hms Hnb Hr)].
 Qed.
 
 (* ---------------------------------------------------------------- C04 *)
 (* every recorded element address equals the byte position of the element's
    first word in jit.bin *)
 Theorem element_address_is_position c script img :
-  successful c script img -> bodies_nonneg img ->
+  successful c script img ->
   forall es1 e es2, im_elements img = es1 ++ e :: es2 ->
   exists pre rest, im_jit img = pre ++ elt_words (im_methods img) e ++ rest /\
                    jit_start_al c + zlen pre * 4 = elt_addr (im_methods img) e.
 Proof.
-  intros [Hc Hr] Hb es1 e es2 Hes. destruct (cfg_ok_facts c Hc) as [F R].
-  assert (Hnb : 1 <= c_nb_methods c).
-  { unfold cfg_ok in Hc. repeat (apply andb_prop in Hc; destruct Hc as [Hc ?]).
-    unfold cfg_sizes in Hc. repeat (apply andb_prop in Hc; destruct Hc as [Hc ?]). apply Z.leb_le in Hc. exact Hc. }
-  pose proof (run_gen_wf c script img [] F Hnb Hr) as W.
+  intros Hs es1 e es2 Hes. destruct (successful_wf c script img Hs) as [W _].
   destruct (iw_layout c img W) as (e' & d & HP).
   exists (map generate (List.concat (im_tramps img)) ++ flat_map (elt_words (im_methods img)) es1),
          (flat_map (elt_words (im_methods img)) es2).
@@ -90,7 +96,7 @@ Proof.
   - rewrite (iw_jit c img W), Hes, flat_map_app. cbn [flat_map]. rewrite <- !app_assoc. reflexivity.
   - pose proof (p2_tiles _ _ _ _ _ _ HP) as T. rewrite Hes in T.
     destruct (tiles_split _ _ _ _ _ _ T) as (b & T1 & E & _).
-    pose proof (tiles_words _ _ _ _ (Forall_len_total c _ (p2_methods _ _ _ _ _ _ HP) Hb) T1) as L.
+    pose proof (tiles_words _ _ _ _ (Forall_len_total c _ (p2_methods _ _ _ _ _ _ HP)) T1) as L.
     rewrite zlen_app. rewrite E.
     assert (Lt : zlen (map generate (List.concat (im_tramps img))) = zlen (List.concat (im_tramps img)))
       by (unfold zlen; rewrite map_length; reflexivity).
@@ -99,19 +105,15 @@ Qed.
 
 (* the jit file is exactly trampolines ++ elements, gap-free: its length is the end of the tiling *)
 Theorem jit_is_exact_tiling c script img :
-  successful c script img -> bodies_nonneg img ->
+  successful c script img ->
   exists e, tiles (im_methods img) (im_elements img) (jit_start_al c + zlen (List.concat (im_tramps img)) * 4) e /\
             jit_start_al c + zlen (im_jit img) * 4 = e /\
             flat_map element_method_ids (im_elements img) = seq 0 (List.length (im_methods img)).
 Proof.
-  intros [Hc Hr] Hb. destruct (cfg_ok_facts c Hc) as [F R].
-  assert (Hnb : 1 <= c_nb_methods c).
-  { unfold cfg_ok in Hc. repeat (apply andb_prop in Hc; destruct Hc as [Hc ?]).
-    unfold cfg_sizes in Hc. repeat (apply andb_prop in Hc; destruct Hc as [Hc ?]). apply Z.leb_le in Hc. exact Hc. }
-  pose proof (run_gen_wf c script img [] F Hnb Hr) as W.
+  intros Hs. destruct (successful_wf c script img Hs) as [W _].
   destruct (iw_layout c img W) as (e & d & HP). exists e.
   split; [apply (p2_tiles _ _ _ _ _ _ HP)|]. split; [|apply (p2_ids _ _ _ _ _ _ HP)].
-  pose proof (tiles_words _ _ _ _ (Forall_len_total c _ (p2_methods _ _ _ _ _ _ HP) Hb) (p2_tiles _ _ _ _ _ _ HP)) as L.
+  pose proof (tiles_words _ _ _ _ (Forall_len_total c _ (p2_methods _ _ _ _ _ _ HP)) (p2_tiles _ _ _ _ _ _ HP)) as L.
   rewrite (iw_jit c img W), zlen_app.
   assert (Lt : zlen (map generate (List.concat (im_tramps img))) = zlen (List.concat (im_tramps img)))
     by (unfold zlen; rewrite map_length; reflexivity).
@@ -126,11 +128,7 @@ Theorem interpreter_padding_exact c script img :
   int_start_al c + zlen (im_int_instrs img) * 4 <= jit_start_al c /\
   exists fill, im_int img = map generate (im_int_instrs img) ++ fill.
 Proof.
-  intros [Hc Hr]. destruct (cfg_ok_facts c Hc) as [F R].
-  assert (Hnb : 1 <= c_nb_methods c).
-  { unfold cfg_ok in Hc. repeat (apply andb_prop in Hc; destruct Hc as [Hc ?]).
-    unfold cfg_sizes in Hc. repeat (apply andb_prop in Hc; destruct Hc as [Hc ?]). apply Z.leb_le in Hc. exact Hc. }
-  pose proof (run_gen_wf c script img [] F Hnb Hr) as W.
+  intros Hs. destruct (successful_wf c script img Hs) as [W _].
   destruct (iw_int_pad c img W) as (fill & E & L).
   split; [exact L|]. split; [apply (iw_int_fits c img W)|]. exists fill. exact E.
 Qed.
@@ -139,11 +137,7 @@ Qed.
 Theorem method_count_exact c script img :
   successful c script img -> zlen (im_methods img) = c_nb_methods c.
 Proof.
-  intros [Hc Hr]. destruct (cfg_ok_facts c Hc) as [F R].
-  assert (Hnb : 1 <= c_nb_methods c).
-  { unfold cfg_ok in Hc. repeat (apply andb_prop in Hc; destruct Hc as [Hc ?]).
-    unfold cfg_sizes in Hc. repeat (apply andb_prop in Hc; destruct Hc as [Hc ?]). apply Z.leb_le in Hc. exact Hc. }
-  pose proof (run_gen_wf c script img [] F Hnb Hr) as W.
+  intros Hs. destruct (successful_wf c script img Hs) as [W _].
   destruct (iw_layout c img W) as (e & d & HP). apply (p2_count _ _ _ _ _ _ HP).
 Qed.
 
@@ -152,11 +146,7 @@ Theorem callee_counts_exact c script img :
   successful c script img ->
   Forall (fun m => if m_depth m =? 0 then m_callees m = [] else zlen (m_callees m) = m_calls m) (im_methods img).
 Proof.
-  intros [Hc Hr]. destruct (cfg_ok_facts c Hc) as [F R].
-  assert (Hnb : 1 <= c_nb_methods c).
-  { unfold cfg_ok in Hc. repeat (apply andb_prop in Hc; destruct Hc as [Hc ?]).
-    unfold cfg_sizes in Hc. repeat (apply andb_prop in Hc; destruct Hc as [Hc ?]). apply Z.leb_le in Hc. exact Hc. }
-  pose proof (run_gen_wf c script img [] F Hnb Hr) as W. exact (iw_done c img W).
+  intros Hs. destruct (successful_wf c script img Hs) as [W _]. exact (iw_done c img W).
 Qed.
 
 (* ---------------------------------------------------------------- C06 *)
@@ -166,11 +156,7 @@ Theorem calls_decrease_depth c script img :
                                       | Some cm => m_depth cm < m_depth m | None => False end) (m_callees m))
          (im_methods img).
 Proof.
-  intros [Hc Hr]. destruct (cfg_ok_facts c Hc) as [F R].
-  assert (Hnb : 1 <= c_nb_methods c).
-  { unfold cfg_ok in Hc. repeat (apply andb_prop in Hc; destruct Hc as [Hc ?]).
-    unfold cfg_sizes in Hc. repeat (apply andb_prop in Hc; destruct Hc as [Hc ?]). apply Z.leb_le in Hc. exact Hc. }
-  pose proof (run_gen_wf c script img [] F Hnb Hr) as W.
+  intros Hs. destruct (successful_wf c script img Hs) as [W _].
   destruct (iw_layout c img W) as (e & d & HP). pose proof (p2_callees _ _ _ _ _ _ HP) as C.
   unfold callees_ok in C. eapply Forall_impl; [|exact C]. intros m Hm.
   eapply Forall_impl; [|exact Hm]. intros cal (cm & Hn & Hd). cbv beta. rewrite Hn. exact Hd.
@@ -218,9 +204,13 @@ Qed.
 Theorem call_sites_exact c script img :
   successful c script img -> Forall (sites_ok c (im_methods img)) (im_methods img).
 Proof.
-  intros [Hc Hr]. destruct (cfg_ok_facts c Hc) as [F R].
-  assert (Hnb : 1 <= c_nb_methods c).
-  { unfold cfg_ok in Hc. repeat (apply andb_prop in Hc; destruct Hc as [Hc ?]).
-    unfold cfg_sizes in Hc. repeat (apply andb_prop in Hc; destruct Hc as [Hc ?]). apply Z.leb_le in Hc. exact Hc. }
-  exact (run_gen_sites c script img [] F Hnb Hr).
+  intros Hs. exact (proj2 (successful_wf c script img Hs)).
 Qed.
+
+(* ---------------------------------------------------------------- C05: the interpreter loop *)
+(* prologue ++ one call stub per top-level element (in an order that is a
+   permutation of the element list) ++ epilogue; each stub is the one built for
+   the offset from its own address to the element (and to the call trampoline) *)
+Theorem interpreter_calls_each_element_once c script img :
+  successful c script img -> int_ok c (im_methods img) (im_elements img) (im_int_instrs img).
+Proof. intros [_ Hr]. exact (run_gen_int c script img [] Hr). Qed.
